@@ -170,14 +170,15 @@ PROPS = {
     "C10": {
         "level": "exploration",
         "rule": "cases = long runs (quick 300, thorough 5000 transactions) of {fixed-size overwrite, variable-size overwrite incl. 4-page values, "
-                "delete/reinsert, sub-bucket create/delete} x {no reopen, reopen every 25} x {no reader, reader held open for a stretch}. After every "
+                "delete/reinsert, sub-bucket create/delete} x {no reopen, reopen every 25} x {no reader, reader held open for a stretch}, plus reader hand-over runs "
+                "(a reader is open at every writer begin but none for longer than one transaction) and sub-buckets holding multi-page values. After every "
                 "commit the header's page high-water mark hwm(t) is read from the file, the independent parser measures L = max live pages and "
                 "D = max pages newly written by one commit and checks page conservation. Bounds (derived from the allocation discipline, DESIGN.md "
                 "C10): fixed-size hwm <= L+2D+8 and no second-half growth above D; variable-size hwm <= 4(L+D)+16 and second-half growth <= 10%+D; "
                 "while a reader is open at most D pages per transaction; after it closes hwm(c+k) <= hwm(c+2)+D. "
                 "non-trivial = run of >= 40 transactions in which pages below the previous high-water mark were re-allocated.",
         "run": generic(thorough_profiles=()),
-        "floors": {"any": {"transactions": 1000, "pages_allocated_below_previous_hwm(reuse)": 1000, "runs_with_periodic_reopen": 2, "runs_with_reader_held": 2}},
+        "floors": {"any": {"transactions": 1000, "pages_allocated_below_previous_hwm(reuse)": 1000, "runs_with_periodic_reopen": 2, "runs_with_reader_held": 2, "runs_with_reader_hand_over": 2}},
         "assumptions": ["bounds are sufficient conditions for a plateau, not the tightest possible"],
     },
     "C06": {
@@ -249,7 +250,7 @@ PROPS = {
                 "{1025,1027,1030,2049,4097,5001,65537} each in a child process: must work (same oracle) or be refused before any file is written - a dying "
                 "process is a violation. non-trivial = pair whose history committed at least once and ran to the end (growth runs: >= 2 extensions).",
         "run": generic(thorough_profiles=("verif-rel",)),
-        "floors": {"any": {"commits_verified": 300, "commits_under_strict_mode": 100, "growth_runs": 3, "file_extensions_observed_in_growth_runs": 6}},
+        "floors": {"any": {"commits_verified": 300, "commits_under_strict_mode": 100, "growth_runs": 3, "file_extensions_observed_in_growth_runs": 6, "directed_growth_histories": 4}},
         "assumptions": ["the reference model is configuration-free by construction"],
     },
     "C15": {
@@ -263,7 +264,8 @@ PROPS = {
                 "it to the manifest contents. The space is finite and fully enumerated (exhaustive). non-trivial = every case.",
         "run": generic(thorough_profiles=("verif-rel",), pre=unpack_golden, extra_sets=("golden=" + os.path.join(ROOT, "out", "golden"),)),
         "floors": {"any": {"golden_files_checked": 8, "legacy_header_files_checked": 4, "opens_fully_verified_against_manifest": 8,
-                           "further_commits_on_golden_files": 24, "mismatching_page_sizes_refused": 48, "files_produced_by_current_code_parsed": 4}},
+                           "further_commits_on_golden_files": 24, "mismatching_page_sizes_refused": 48, "files_produced_by_current_code_parsed": 4,
+                           "golden_files_with_garbage_in_uninitialised_padding": 8, "small_file_page_size_mismatches_refused": 25}},
         "assumptions": ["the golden files were produced once from the pinned tree and are integrity-checked against SHA256SUMS",
                         "every file any other check produces is also parsed by the same pinned-layout reader (C05, C02, C10, C11, C16)"],
     },
@@ -339,7 +341,7 @@ PROPS = {
                        "memcheck. 'All programs' is out of reach: the corpus is finite and recipe-driven; the public API surface is enumerated from "
                        "rustdoc JSON only to report which items the corpus does not exercise.",
         "run": c14mod.run,
-        "floors": {"any": {"reject_programs_rejected": 80, "twin_programs_compiled": 20, "accept_programs_compiled": 5, "probe_runs_clean": 50}},
+        "floors": {"any": {"reject_programs_rejected": 100, "twin_programs_compiled": 30, "accept_programs_compiled": 5, "probe_runs_clean": 50}},
         "assumptions": ["rustc's verdict on the corpus program is taken as the observation of 'is a compile-time error'",
                         "the corpus is finite; escape routes it does not contain are not judged"],
         "crash_is_violation": False,
